@@ -486,9 +486,7 @@ def get_hotness() -> Any:
 
 
 class _Carrier:
-    """A real OS thread that carries one simulated worker per run and is then reused.  Fresh
-    threads would fault in a fresh stack every run (hundreds of pages: the evaluator recurses
-    deeply), and page faults are what does not scale in this sandbox."""
+    """A real OS thread that carries one simulated worker for one run."""
 
     _free: List["_Carrier"] = []
 
@@ -503,9 +501,10 @@ class _Carrier:
         while True:
             self.go.acquire()
             job, self.job = self.job, None
+            if job is None:
+                return
             try:
-                if job is not None:
-                    job()
+                job()
             finally:
                 self.finished.set()
 
@@ -516,11 +515,16 @@ class _Carrier:
 
     @classmethod
     def get(cls) -> "_Carrier":
-        return cls._free.pop() if cls._free else cls()
+        return cls()
 
     @classmethod
     def put(cls, c: "_Carrier") -> None:
-        cls._free.append(c)
+        # Carriers are NOT reused: a thread that once ran into the interpreter's (C) recursion limit
+        # does not always get its remaining budget back (CPython 3.12.1), so a reused thread made
+        # the next run's outcome at the edge of that limit depend on the previous run.  (Reuse did
+        # not buy throughput either.)  The carrier's loop ends with its single job.
+        c.job = None
+        c.go.release()
 
 
 class Worker:
